@@ -107,13 +107,13 @@ def nand_bytes():
     return img, dec, cid
 
 
-def diff_bytes():
+def diff_bytes(external=False):
     rng = Rng('c16-diff')
-    f, infos = savebuild.build_diff(rng, rng.rbytes(300))
+    f, infos = savebuild.build_diff(rng, rng.rbytes(300), external=external)
     return f
 
 
-def disa_bytes():
+def disa_bytes(external=False):
     rng = Rng('c16-disa')
-    f, infos = savebuild.build_disa(rng, [rng.rbytes(300), rng.rbytes(200)])
+    f, infos = savebuild.build_disa(rng, [rng.rbytes(300), rng.rbytes(200)], external=external)
     return f
